@@ -67,6 +67,8 @@ pub fn configs(tier: Tier, judge: u32, liveness: bool) -> Vec<OutCfg> {
                             judge,
                             prologue: 0,
                             peer_max_packet: 0,
+                            inbound: 0,
+                            may_close: false,
                         });
                     }
                 }
@@ -114,6 +116,7 @@ pub fn trace(prop: &str, tier: Tier, idx: usize, choices: &[u16], script: Option
     let cfgs = match prop {
         "C13" => configs(tier, J_LIVENESS, true),
         "C06" | "C14" => crate::c06::trace_cfgs(prop, tier),
+        "C08" => crate::c08::configs(tier),
         _ => configs(tier, J_WINDOW, false),
     };
     let c = &cfgs[idx];
